@@ -97,4 +97,37 @@ C07Why(e) ==
     ELSE IF e.cdecerr # "none" THEN "client decode: " \o e.cdecerr
     ELSE IF ~HF!SameValue(e.expresult, e.cresult, {}) THEN "client decoded another result"
     ELSE ""
+
+---------------------------------------------------------------------------
+(* The JSON-RPC 2.0 codec (rpc/codec/jsonrpc).  The harness parses the two  *)
+(* messages as JSON (integers kept apart from other numbers) and projects   *)
+(* params, headers and result; e.wire says whether what is on the wire can  *)
+(* be compared with the values passed (not for structs: JSON keys are Go's  *)
+(* field names).  A decode error of the service codec is what the service   *)
+(* encodes as the response (Service.Handle), so the client must get it.     *)
+JsonWhy(e) ==
+    IF e.encerr # "none" THEN "client encode: " \o e.encerr
+    ELSE IF ~e.req.ok THEN "request is not a JSON object"
+    ELSE IF e.req.jsonrpc # "2.0" THEN "request is not JSON-RPC 2.0"
+    ELSE IF e.req.method # e.name THEN "request names another method"
+    ELSE IF e.wire /\ ~HF!SameValue(e.args, e.req.params, {}) THEN "request params denote other values"
+    ELSE IF e.wire /\ ~HF!SameValue(e.hdr, e.req.headers, {}) THEN "request headers denote other values"
+    ELSE IF e.sdecerr = "none" /\ e.sname # e.name THEN "service decoded another method name"
+    ELSE IF e.sdecerr = "none" /\ ~HF!SameValue(e.args, e.sargs, {}) THEN "service decoded other arguments"
+    ELSE IF ~HF!SameValue(e.hdr, e.shdr, {}) THEN "service decoded other headers"
+    ELSE IF e.sencerr # "none" THEN "service encode: " \o e.sencerr
+    ELSE IF ~e.resp.ok THEN "response is not a JSON object"
+    ELSE IF e.resp.jsonrpc # "2.0" THEN "response is not JSON-RPC 2.0"
+    ELSE IF e.resp.id # e.req.id THEN "response answers another id"
+    ELSE IF e.iserror
+         THEN IF ~e.resp.haserror \/ e.resp.hasresult THEN "response does not carry the error"
+              ELSE IF e.cdecerr = "none" THEN "client got no error"
+              ELSE IF e.cdecerr # e.errmsg THEN "client got another error: " \o e.cdecerr ELSE ""
+    ELSE IF e.resp.haserror THEN "response carries an error nobody raised"
+    ELSE IF e.wire /\ e.resp.hasresult /\ ~HF!SameValue(e.result, e.resp.result, {}) THEN "response denotes another result"
+    ELSE IF e.cdecerr # "none" THEN "client decode: " \o e.cdecerr
+    ELSE IF ~HF!SameValue(e.expresult, e.cresult, {}) THEN "client decoded another result"
+    ELSE ""
+
+C07Judge(e) == IF e.kind = "jsonrpc" THEN JsonWhy(e) ELSE C07Why(e)
 =============================================================================
